@@ -89,6 +89,204 @@ def _static_index(p):
     return bool(m) and int(m.group(1)) < int(m.group(2))
 
 
+def _window_bounded(d):
+    """Assembler value that a peer cannot inflate by re-sending data: built from literals and `end - bytes_read` (bytes between the
+    read offset and the highest received offset; flow control / crypto_buffer_size bound it); anything else (self.buffered and
+    self.allocated grow with every duplicate copy) only as an operand of min(_, bounded)."""
+    if d[0] == 'const':
+        return d[1] == 'int'
+    if d[0] == 'phi':
+        return all(_window_bounded(x) for x in d[1])
+    sub = _arith(d, 'Sub', ('saturating_sub', 'wrapping_sub'))
+    if sub and sub[0][0] == 'field' and sub[0][2] == 'end' and sub[1][0] == 'field' and sub[1][2] == 'bytes_read' and sub[0][1] == sub[1][1]:
+        return True
+    if d[0] == 'call' and d[1].rsplit('::', 1)[-1] == 'min' and len(d[3]) == 2:
+        return any(_window_bounded(a) for a in d[3])
+    if d[0] == 'call' and d[1].rsplit('::', 1)[-1] in ('max', 'saturating_add', 'saturating_mul', 'wrapping_add', 'wrapping_mul') and len(d[3]) == 2:
+        return all(_window_bounded(a) for a in d[3])
+    if d[0] == 'bin' and d[1] in ('Add', 'Mul'):
+        return _window_bounded(d[2]) and _window_bounded(d[3])
+    if d[0] == 'bin' and d[1] in ('Div', 'Shr', 'Sub', 'Rem'):
+        return _window_bounded(d[2]) or (d[1] == 'Rem' and _window_bounded(d[3]))
+    if sub:
+        return _window_bounded(sub[0])
+    return False
+
+
+# ---- bounded iteration (loops of the CID ring) ------------------------------------------------------------------
+
+_SMALL = 1 << 16
+_RING_ADT = 'cid_queue::CidQueue'
+_ITER_ADAPTERS = ('into_iter', 'iter', 'iter_mut', 'filter_map', 'map', 'filter', 'enumerate', 'rev', 'skip', 'by_ref', 'copied', 'cloned',
+                  'step_by', 'skip_while', 'take_while', 'map_while', 'peekable', 'inspect', 'fuse')
+
+
+def _fixed_array_field(F, d):
+    """d is a field of a crate struct whose declared type is a fixed-size array `[T; N]` (iteration over it is bounded by N)"""
+    if d[0] != 'field':
+        return False
+    for v in F.adt(_RING_ADT)['variants']:
+        for f in v['fields']:
+            if f[0] == d[2] and f[1].startswith('[') and ';' in f[1]:
+                return True
+    return False
+
+
+def _small(F, d, guards=()):
+    """integer descriptor bounded by a small constant whatever the peer sent: a literal / named const <= 65536, min(_, small),
+    x % small, the length of a fixed-size array field, sums/products/max of small values, or a value that a dominating guard edge
+    (`guards`: descriptors g with g < small established on the way in) bounds"""
+    if d in guards:
+        return True
+    if d[0] == 'const':
+        try:
+            return d[1] == 'int' and 0 <= int(d[2]) <= _SMALL
+        except (TypeError, ValueError):
+            return False
+    if d[0] == 'phi':
+        return all(_small(F, x, guards) for x in d[1])
+    if d[0] == 'call' and len(d[3]) == 2:
+        m = d[1].rsplit('::', 1)[-1]
+        if m == 'min':
+            return any(_small(F, a, guards) for a in d[3])
+        if m in ('max', 'saturating_add', 'saturating_mul', 'wrapping_add', 'wrapping_mul'):
+            return all(_small(F, a, guards) for a in d[3])
+        if m in ('saturating_sub', 'wrapping_div', 'rem_euclid'):
+            return _small(F, d[3][0], guards) or (m == 'rem_euclid' and _small(F, d[3][1], guards))
+    if d[0] == 'call' and len(d[3]) == 1 and d[1].rsplit('::', 1)[-1] == 'len':
+        return _fixed_array_field(F, d[3][0])
+    if d[0] == 'un' and d[1] == 'PtrMetadata':
+        return _fixed_array_field(F, d[2])
+    if d[0] == 'bin':
+        if d[1] in ('Add', 'Mul'):
+            return _small(F, d[2], guards) and _small(F, d[3], guards)
+        if d[1] == 'Rem':
+            return _small(F, d[2], guards) or _small(F, d[3], guards)
+        if d[1] in ('Div', 'Shr', 'Sub', 'BitAnd'):
+            return _small(F, d[2], guards) or (d[1] == 'BitAnd' and _small(F, d[3], guards))
+    return False
+
+
+def _bounded_iter(F, d, guards=(), depth=0):
+    """iterator descriptor that yields a small number of items whatever the peer sent"""
+    if d[0] == 'phi':
+        return all(_bounded_iter(F, x, guards, depth) for x in d[1])
+    if d[0] == 'agg' and d[1] == 'adt' and d[2].split('::')[-1] in ('Range', 'RangeInclusive') and len(d) > 4 and 'end' in d[4]:
+        return _small(F, d[3][list(d[4]).index('end')], guards)
+    if _fixed_array_field(F, d):
+        return True
+    if d[0] != 'call' or not d[3]:
+        return False
+    m = d[1].rsplit('::', 1)[-1]
+    if d[1].endswith('RangeInclusive::new') and len(d[3]) == 2:
+        return _small(F, d[3][1], guards)
+    if m in _ITER_ADAPTERS:
+        return _bounded_iter(F, d[3][0], guards, depth)
+    if m == 'take' and len(d[3]) == 2:
+        return _small(F, d[3][1], guards) or _bounded_iter(F, d[3][0], guards, depth)
+    if m == 'zip' and len(d[3]) == 2:
+        return any(_bounded_iter(F, a, guards, depth) for a in d[3])
+    if m == 'chain' and len(d[3]) == 2:
+        return all(_bounded_iter(F, a, guards, depth) for a in d[3])
+    if d[2].startswith('quinn_proto::') and depth < 2:
+        # a crate helper returning an iterator (CidQueue::iter): every value it returns is a bounded iterator in its own right
+        # (its parameters are not substituted: a bound that depends on an argument is not accepted)
+        bs = [b for b in F.bodies.values() if b.kind == 'fn' and b.canon == canon_of(d[2])]
+        if len(bs) != 1:
+            return False
+        rds = [y for _, x in ret_descs(F, bs[0]) for y in flat(x)]
+        return bool(rds) and all(_bounded_iter(F, x, (), depth + 1) for x in rds)
+    return False
+
+
+def canon_of(p):
+    from engine.facts import canon
+    return canon(p)
+
+
+def _cycles(body):
+    """strongly connected sets of live blocks that contain a cycle"""
+    live = body.live_blocks()
+    seen = set()
+    out = []
+    for b in sorted(live):
+        if b in seen:
+            continue
+        fw = body.reachable_strict(b)
+        if b not in fw:
+            continue
+        scc = {x for x in fw if b in body.reachable_from(x)}
+        seen |= scc
+        out.append(scc)
+    return out
+
+
+def _guards_into(F, body, header):
+    """descriptors g for which `g < small` / `g <= small` holds whenever `header` is reached: the relation's branch dominates the
+    header and the header cannot be reached over its other edge"""
+    out = []
+    for br, truth, tgt in _rel_edges(F, body, lambda o, a, b: o in ('Lt', 'Le') and _small(F, b)):
+        if body.dominates(br.bb, header) and br.bb != header:
+            other = [t for _, t in br.edges if t != tgt]
+            if tgt not in other and not any(header in body.reachable_from(t, avoid=[br.bb]) for t in other):
+                out.append(relation_on(br.desc, truth)[1])
+    return tuple(out)
+
+
+def loop_unbounded(F, body, scc):
+    """None when the cycle `scc` has a bounded trip count, else the reason.  Bounded: some block that every iteration passes leaves
+    the cycle either on the exhausted edge of `Iterator::next` over a bounded iterator, or on the failing edge of `i < N` /
+    `i <= N` with N small."""
+    n = len(body.blocks)
+    seen_iter = []
+    for br in branches(F, body):
+        if br.bb not in scc or all(t in scc for _, t in br.edges):
+            continue
+        rest = scc - {br.bb}
+        outside = set(range(n)) - rest
+        if any(x in body.reachable_strict(x, avoid=outside) for x in rest):
+            continue            # an inner cycle does not pass this exit
+        header = min(scc, key=lambda x: (not any(p not in scc for p in body.pred[x]), x))
+        guards = _guards_into(F, body, header)
+        d = br.desc
+        if d[0] == 'discr' and d[1][0] == 'call' and d[1][1].endswith('::next') and 'Iterator' in d[1][1] and d[1][3]:
+            it = d[1][3][0]
+            if _bounded_iter(F, it, guards):
+                return None
+            seen_iter.append(D.render(it)[:160])
+            continue
+        for truth in (True, False):
+            rel = relation_on(d, truth)
+            tgt = br.target(1 if truth else 0)
+            if rel and rel[0] in ('Lt', 'Le') and tgt in scc and _small(F, rel[2], guards):
+                return None
+    if seen_iter:
+        return 'it runs over %s, whose length the peer chooses (not min(_, small const) / a fixed-size array / a range guarded by a dominating `n < small` test)' % ' / '.join(seen_iter)
+    return 'no exit taken on every iteration is the end of a bounded iterator or the failing edge of `i < small`'
+
+
+def cid_ring_loops_bounded(ctx, rule, instance):
+    """every loop executed while the CID ring handles a NEW_CONNECTION_ID / rotates has a trip count bounded by a small constant
+    (the ring has LEN slots: nothing in it needs more than O(LEN) steps); sequence numbers and retire_prior_to are peer-chosen
+    62-bit values, so a loop whose bound is derived from them without min(_, LEN) spins the endpoint driver."""
+    F = ctx.facts
+    roots = [b for b in F.code_bodies('quinn_proto') if b.kind == 'fn' and not b.trait and path_matches(b.self_ty or '', _RING_ADT)]
+    ctx.floor(rule, 'cid_ring_methods', len(roots), 4)
+    ids = reach_set(F, roots, depth=3)
+    n = 0
+    for bid in sorted(ids):
+        b = F.bodies[bid]
+        if b.crate != 'quinn_proto' or 'cid_queue' not in b.id:
+            continue
+        for scc in _cycles(b):
+            n += 1
+            why = loop_unbounded(F, b, scc)
+            line = min([br.line for br in branches(F, b) if br.bb in scc] or [b.line])
+            ctx.check(why is None, rule, instance, F.root_of(b), b.where(line), 'loop with a trip count bounded by a small constant',
+                      'a loop of the CID ring is not bounded by a constant: ' + (why or ''))
+    ctx.floor(rule, 'cid_ring_loops', n, 1)
+
+
 def guarded_reads(ctx, rule='a'):
     F = ctx.facts
     ss = G.sites(F)
@@ -237,6 +435,7 @@ def rule_c(ctx):
     guard_error(ctx, 'c', 'cid_queue_insert_bounded', ci, lambda o, x, y: o == 'Le' and (D.has_const(x, named='LEN') or 'LEN' in D.render(x)) and D.has_call(y, 'u64::checked_sub') | ('sequence' in D.render(y)),
                 variant=('InsertError', 'ExceedsLimit'), protect=stores, what='index >= LEN + retired_count')
     n += 1
+    cid_ring_loops_bounded(ctx, 'c', 'cid_queue_loops_bounded')
     # 4. incoming buffers
     eh = ctx.pfn('Endpoint::handle')
     push = [c for c in eh.calls_to('Vec::push') if D.has_field(arg_desc(F, c, 0), 'datagrams')]
@@ -321,12 +520,30 @@ def assembler_defence(ctx, ai):
         why.append('TooManyChunks is never constructed')
 
     def over_alloc(o, x, y):
-        # threshold < allocated - buffered, with a threshold that scales with the buffered bytes (not a constant) and a modest floor
+        # anchor: T < allocated - B
         sub = _arith(y, 'Sub', _SUB)
-        return (o == 'Lt' and sub is not None and D.has_field(sub[0], 'allocated') and D.has_field(sub[1], 'buffered')
-                and D.has_field(x, 'buffered') and all(k <= (1 << 24) for k in _int_consts(x)))
-    e1 = _rel_edges(F, ai, over_alloc)
-    if not e1:
+        return o == 'Lt' and sub is not None and sub[0][0] == 'field' and sub[0][2] == 'allocated'
+    e1 = []
+    for br, truth, tgt in _rel_edges(F, ai, over_alloc):
+        # T < allocated - B is the defence only if neither T nor B can be inflated by the peer: `self.buffered` counts every
+        # duplicate copy, so it may enter T and B only under min(_, end - bytes_read) (the receive-window occupancy, which
+        # flow control bounds).  T must scale with the buffered bytes (not a constant) with literals <= 16 MiB.
+        _, x, y = relation_on(br.desc, truth)
+        s = _arith(y, 'Sub', _SUB)[1]
+        bad = []
+        if not (D.has_field(x, 'buffered') and all(k <= (1 << 24) for k in _int_consts(x))):
+            bad.append('the threshold %s does not scale with the buffered bytes / has a literal > 16 MiB' % D.render(x)[:120])
+        elif not _window_bounded(x):
+            bad.append('the threshold %s grows with the duplicate-counting self.buffered (not capped by min(_, end - bytes_read)): re-sent data raises it as fast as the over-allocation' % D.render(x)[:120])
+        if not D.has_field(s, 'buffered'):
+            bad.append('the over-allocation is not allocated - buffered bytes: %s' % D.render(s)[:120])
+        elif not _window_bounded(s):
+            bad.append('the over-allocation subtracts %s, which counts duplicates (not capped by min(_, end - bytes_read)): exact-fit duplicates never show as over-allocation' % D.render(s)[:120])
+        if bad:
+            why.extend('over-allocation test at %s: %s' % (br.where(), b) for b in bad)
+        else:
+            e1.append((br, truth, tgt))
+    if not e1 and not any(w.startswith('over-allocation test') for w in why):
         why.append('no test `threshold(buffered) < allocated - buffered` (threshold must depend on the buffered bytes; constants <= 16 MiB)')
     for br, truth, tgt in e1:
         if path_avoiding(ai, [tgt], rets, defr) is not None:
